@@ -53,6 +53,33 @@ func runC01(c *ctx) error {
 		idx := rng.Intn(len(cmds))
 		ss := stepSource{src, idx}
 		st := cmds[idx]
+		// sometimes the step carries extra matrix / adjustment keys spelled like the typed fields (reachable
+		// through interpolated key names): the typed field is what is signed, the decoy never replaces it
+		prep := func(*pipeline.CommandStep) {}
+		if st.Matrix != nil && rng.Intn(5) == 0 {
+			c.res.Hist("base.decoy-keys-named-like-fields")
+			prep = func(cs *pipeline.CommandStep) {
+				if cs.Matrix == nil {
+					return
+				}
+				if cs.Matrix.RemainingFields == nil {
+					cs.Matrix.RemainingFields = map[string]any{}
+				}
+				cs.Matrix.RemainingFields["setup"] = []any{"decoy"}
+				cs.Matrix.RemainingFields["adjustments"] = "decoy"
+				for _, a := range cs.Matrix.Adjustments {
+					if a == nil {
+						continue
+					}
+					if a.RemainingFields == nil {
+						a.RemainingFields = map[string]any{}
+					}
+					a.RemainingFields["with"] = "decoy"
+					a.RemainingFields["skip"] = "decoy"
+				}
+			}
+		}
+		prep(st)
 		k := keys[rng.Intn(len(keys))]
 		if k.kind == "PS512" && rng.Intn(4) != 0 {
 			k = keys[0]
@@ -78,6 +105,7 @@ func runC01(c *ctx) error {
 			if m.step == nil {
 				return
 			}
+			prep(m.step)
 			f(&m)
 			muts = append(muts, m)
 		}
